@@ -373,6 +373,11 @@ func (server *SugarDB) VerifRaftState() string   { return server.raft.VerifState
 func (server *SugarDB) VerifRaftPeers() int      { return server.raft.VerifNumPeers() }
 func (server *SugarDB) VerifInCluster() bool     { return server.isInCluster() }
 
+// VerifRaftSnapshotTo: a real raft snapshot of this node, restored on dst through raft.
+func (server *SugarDB) VerifRaftSnapshotTo(dst *SugarDB) error {
+	return server.raft.VerifSnapshotTo(dst.raft)
+}
+
 // VerifCommandSync lists, per command (and "cmd|sub"), whether it is replicated through raft.
 func (server *SugarDB) VerifCommandSync() map[string]bool {
 	out := map[string]bool{}
